@@ -74,6 +74,7 @@ type T struct {
 	cl        client.Client
 	pingCb    int32
 	pongCb    int32
+	Codec     protocol.CodecType
 }
 
 func (t *T) ev(kind string, kv ...interface{}) {
@@ -141,7 +142,11 @@ func defaultCfg() clientCfg {
 }
 
 func (t *T) handshake() *protocol.Handshake {
-	return &protocol.Handshake{Version: uint8(t.Version), Codec: protocol.CodecProtobuf, Platform: protocol.PlatformOpenapi}
+	c := t.Codec
+	if c == 0 {
+		c = protocol.CodecProtobuf
+	}
+	return &protocol.Handshake{Version: uint8(t.Version), Codec: c, Platform: protocol.PlatformOpenapi}
 }
 
 // NewClient creates the client under test and dials the peer
@@ -255,6 +260,10 @@ func tagOfBody(body []byte) int32 {
 	if pb.Unmarshal(body, &hb) == nil && hb.HeartbeatId != nil {
 		return hb.GetHeartbeatId()
 	}
+	var hj control.Heartbeat
+	if json.Unmarshal(body, &hj) == nil && hj.HeartbeatId != nil { // JSON codec
+		return hj.GetHeartbeatId()
+	}
 	return -1
 }
 
@@ -298,6 +307,7 @@ type scenario struct {
 	// transports it runs on ("tcp", "ws"); versions
 	Transports []string
 	TimeoutU   int // watchdog, in units (default 400 = 20 s)
+	Codec      protocol.CodecType
 }
 
 var scenarios = map[string]*scenario{}
@@ -343,7 +353,7 @@ func cmdScn(args []string) int {
 			unit = time.Duration(ms) * time.Millisecond
 		}
 	}
-	t := &T{Name: s.Name, Transport: args[1], Version: version, Seed: seed, rg: &rng{seed}, t0: time.Now(), warns: map[string]int{}, dos: map[string]*doResult{}}
+	t := &T{Name: s.Name, Transport: args[1], Version: version, Seed: seed, rg: &rng{seed}, t0: time.Now(), warns: map[string]int{}, dos: map[string]*doResult{}, Codec: s.Codec}
 	res := scnResult{Name: s.Name, Transport: args[1], Version: version, Seed: seed, Status: "ok"}
 	done := make(chan struct{})
 	go func() {
